@@ -68,7 +68,55 @@ LOCS = [([(12, 16)], "PLUS"), ([(4, 9), (12, 20)], "MINUS"), ([(8, 16)], "PLUS")
         ([(2, 5), (14, 19), (23, 31)], "PLUS"), ([(10, 13)], "PLUS"), ([(11, 12)], "MINUS"), ([(30, 36)], "PLUS")]
 
 
+def _haplotypes_case(repo, spec):
+    """several alternative haplotypes of one sequence built one after the other in one process (with the class-level memo of
+    Parent modelled): each one carries its own edits - also when two haplotypes have the same length and placement"""
+    chunk, = spec
+    it = gene_interp(repo, max_steps=10 ** 10)
+    it.class_caches = {}
+    S = strands(it)
+    out = []
+    n = 0
+    if chunk:
+        cs, ce = chunk
+        mkpar = lambda: chunk_parent(it, REF, cs, ce, alphabet="NT_STRICT_UNKNOWN")  # noqa: E731
+        ref, off = REF[cs:ce], cs
+    else:
+        mkpar = lambda: chrom_parent(it, REF, alphabet="NT_STRICT_UNKNOWN")  # noqa: E731
+        ref, off = REF, 0
+    where = "chromosome" if not chunk else f"chunk {chunk}"
+    pos = off + 9
+    alts = [b for b in "ACGT" if b != REF[pos]] + ["TT"]
+    feat_blocks = [(off + 5, off + 15)]
+    for alt in alts + alts[:1]:
+        n += 2
+        try:
+            parent = mkpar()
+            v = mk_variant(it, pos, pos + 1, alt, parent)
+            ft = mk_feature(it, feat_blocks, S["PLUS"], parent_or_seq_chunk_parent=parent)
+        except Raised as ex:
+            out.append(("haplotypes built one after the other", f"{where}: construction raises {ex.exc_name}", f"{V}.__init__"))
+            continue
+        want = apply_edits(ref, [(pos - off, pos + 1 - off, alt)])
+        k, p = run(it, repo.fn(f"{V}.parent_with_alternative_sequence"), [], {}, v)
+        got = p.fields["sequence"].fields["sequence"] if k == "ok" else p
+        if got != want:
+            out.append(("haplotypes built one after the other", f"{where}: the alternative parent of variant ({pos},{pos + 1},{alt!r}), built after "
+                        f"other alleles of the same site, carries {got!r}; literal substitution gives {want!r}", f"{V}.parent_with_alternative_sequence"))
+        k2, new = run(it, repo.fn("gene.feature:FeatureInterval.incorporate_variants"), [v], {}, ft)
+        k3, sv = run(it, repo.fn("gene.interval:AbstractFeatureInterval.get_spliced_sequence"), [], {}, new) if k2 == "ok" else (k2, new)
+        wseq = edited_block(ref, feat_blocks[0][0] - off, feat_blocks[0][1] - off, [(pos - off, pos + 1 - off, alt)])
+        gseq = sv.fields["sequence"] if k3 == "ok" else sv
+        if gseq != wseq:
+            out.append(("haplotypes built one after the other", f"{where}: feature {feat_blocks} after incorporating ({pos},{pos + 1},{alt!r}), built after "
+                        f"other alleles of the same site, has spliced sequence {gseq!r}; the reference with the edit applied is {wseq!r}",
+                        "gene.feature:FeatureInterval.incorporate_variants"))
+    return n, out
+
+
 def _seq_case(repo, it, S, spec):
+    if spec[0] == "haplotypes":
+        return _haplotypes_case(repo, spec[1:])
     vs, chunk = spec
     out = []
     n = 0
@@ -279,6 +327,8 @@ def rk_sequences(ctx):
             specs.append(((ev,), ch))
             specs.append(((VARIANTS[1], ev), ch))
         specs.append((((lo, lo + 1, "G"), (hi - 1, hi, "T")), ch))
+    for ch in chunks:
+        specs.append(("haplotypes", ch))
     ctx.r.floor("C13.RK", "alternative-sequence cases", len(specs), 60)
     from ..par import pmap
     results = pmap(_runner(ctx.repo, _seq_case), specs)
